@@ -8,7 +8,7 @@ import itertools
 import math
 from fractions import Fraction
 
-from ..common import cnat, cbool, clist, copt, coq_eval
+from ..common import cnat, cbool, clist, copt, safe_coq_eval
 from ..impl import Impl
 
 IMPORTS = ['Base.Util', 'Model.Dendrogram', 'Model.Cuts']
@@ -474,10 +474,11 @@ def run(ctx, scratch):
     exprsA = []
     for (fam, n, rows, calls) in plan:
         exprsA.append('let D := %s in [%s]' % (cdend(rows), '; '.join(clusters_expr(c) for c in calls)))
-    valsA = coq_eval('c08a', IMPORTS, exprsA, prelude=PRELUDE, shard=60)
+    # (model dead -- recorded in ctx.proof_broken by safe_coq_eval: no model diff, the property oracles below still judge every output)
+    valsA = safe_coq_eval(ctx, 'c08a', IMPORTS, exprsA, prelude=PRELUDE, shard=60)
     exprsB = []
     n_oracle_fallback = 0
-    for (fam, n, rows, calls), got_all, cl_all in zip(plan, impl_out, valsA):
+    for (fam, n, rows, calls), got_all, cl_all in zip(plan, impl_out, valsA or []):
         parts = []
         for c, got, clv in zip(calls, got_all, cl_all):
             oracle = None
@@ -496,20 +497,22 @@ def run(ctx, scratch):
                         n_oracle_fallback += 1
             parts.append(call_expr(c, oracle))
         exprsB.append('let D := %s in [%s]' % (cdend(rows), '; '.join(parts)))
-    valsB = coq_eval('c08b', IMPORTS, exprsB, prelude=PRELUDE, shard=60)
+    valsB = safe_coq_eval(ctx, 'c08b', IMPORTS, exprsB, prelude=PRELUDE, shard=60) if valsA is not None else None
+    if valsB is None:
+        valsB = [None] * len(plan)
 
     # ---- diff + property oracle
     kshown = 0
     for (fam, n, rows, calls), got_all, mod_all in zip(plan, impl_out, valsB):
         inside = tree_monotone(n, rows)
         jrows = [[a, b, str(h), s] for (a, b, h, s) in rows]
-        for c, got, mv in zip(calls, got_all, mod_all):
-            exp = conv_model(mv, c['fn'])
+        for c, got, mv in zip(calls, got_all, mod_all if mod_all is not None else [None] * len(calls)):
+            exp = conv_model(mv, c['fn']) if mv is not None else None
             key = (c['fn'], jrows, sorted((k, str(v)) for k, v in c.items()))
             ctx.count('%s:%s' % (c['fn'], 'malformed' if c.get('malformed') else fam), key,
                       nontrivial=(n >= 3 and not c.get('malformed')))
             cj = {k: (str(v) if isinstance(v, Fraction) else v) for k, v in c.items()}
-            if got != exp:
+            if mv is not None and got != exp:
                 ctx.violation({'straight': 'cut_straight', 'balanced': 'cut_balanced', 'aggregate': 'aggregate_dendrogram'}[c['fn']],
                               'implementation differs from the model', case=dict(n=n, dendrogram=jrows, call=cj),
                               expected=exp, observed=got, defect='model_mismatch', fn=c['fn'], family=fam)
@@ -607,8 +610,11 @@ def check_metrics(ctx, cases, outs):
                                 'cvq (dasgupta_score false n G D); cvq (dasgupta_score true n G D)]')
         exprs_tsd.append(pre + '[cvt (tsd_terms false n G D); cvt (Ok (mi_terms false n G)); '
                                'cvt (tsd_terms true n G D); cvt (Ok (mi_terms true n G))]')
-    vc = coq_eval('c08m', IMPORTS, exprs_cost, prelude=PRELUDE, shard=40)
-    vt = coq_eval('c08t', IMPORTS, exprs_tsd, prelude=PRELUDE, shard=40)
+    vc = safe_coq_eval(ctx, 'c08m', IMPORTS, exprs_cost, prelude=PRELUDE, shard=40)
+    vt = safe_coq_eval(ctx, 'c08t', IMPORTS, exprs_tsd, prelude=PRELUDE, shard=40)
+    # None entries: model dead; the brute-force Dasgupta oracle and the range checks do not need it
+    vc = vc if vc is not None else [None] * len(cases)
+    vt = vt if vt is not None else [None] * len(cases)
     shown = 0
     for mc, out, mcost, mtsd in zip(cases, outs, vc, vt):
         n, kind = mc['n'], mc['kind']
@@ -622,7 +628,7 @@ def check_metrics(ctx, cases, outs):
         def q(v):
             return None if v[0] == 'Err' else Fraction(v[1][0][0], v[1][0][1])
         names = ['cost_uniform', 'cost_degree', 'ncost_uniform', 'ncost_degree', 'score_uniform', 'score_degree']
-        for name, mv in zip(names, mcost):
+        for name, mv in zip(names, mcost or []):
             exp, got = q(mv), out[name]
             site = 'dasgupta_score' if name.startswith('score') else 'dasgupta_cost'
             if exp is None or 'ok' not in got:
@@ -656,7 +662,7 @@ def check_metrics(ctx, cases, outs):
                 ctx.violation(site, 'score outside [0, 1]', case=case, observed=got['ok'], defect='score_out_of_range',
                               metric=name, family=kind)
         # tree sampling divergence vs the model's terms (np.log trusted)
-        for w, (tt, mi) in (('uniform', (mtsd[0], mtsd[1])), ('degree', (mtsd[2], mtsd[3]))):
+        for w, (tt, mi) in ((('uniform', (mtsd[0], mtsd[1])), ('degree', (mtsd[2], mtsd[3]))) if mtsd is not None else ()):
             if tt[0] == 'Err':
                 continue
             tl = [Fraction(a, b) for (a, b) in tt[1]]
@@ -674,5 +680,5 @@ def check_metrics(ctx, cases, outs):
                                   family=kind)
         if shown < 2 and n >= 4:
             ctx.sample(dict(family='metrics_' + kind, case=case, impl={k: v.get('ok') for k, v in out.items()},
-                            model_cost=[str(q(v)) for v in mcost]))
+                            model_cost=[str(q(v)) for v in mcost or []]))
             shown += 1
